@@ -26,6 +26,12 @@ let line l =
         | OutOfFuel -> "(outoffuel)"
         | Err _ -> "(err)")
      | _ -> "(badline)")
+  | "vjust" ->
+    let rest = Stdlib.String.sub l (sp1 + 1) (Stdlib.String.length l - sp1 - 1) in
+    let sp2 = Stdlib.String.index rest ' ' in
+    let p = Stdlib.String.sub rest 0 sp2 in
+    let sx = Stdlib.String.sub rest (sp2 + 1) (Stdlib.String.length rest - sp2 - 1) in
+    if Justify.vjust_cfg (z_of_hex p) (r_cfg (parse_sexp sx)) then "(justified)" else "(unjustified)"
   | _ -> "(unknown-command)"
 
 let () = each_line line
